@@ -10,6 +10,7 @@ import (
 	"verif/harness/internal/qx"
 
 	"github.com/openziti/storage/ast"
+	"github.com/openziti/storage/zitiql"
 	"verif/harness/internal/core"
 	"verif/harness/internal/memsym"
 )
@@ -112,6 +113,7 @@ func c10Nested2(set, innerSet string, inner []string, step int) []string {
 
 // left-hand sides over schema Q (bolt path)
 var c10BoltLhs = []string{"s", "ism", "ibig", "flt", "b", "t", "grp", "tags", "nums", "friends", "owner", "id", "meta.k", "meta.a.b", "meta", "owner.name", "owner.tags", "friends.name", "friends.tags", "friends.rank", "zz", "owner.zz",
+	"s.len", "tags.x", "nums.value", "ism.x", "b.c", "t.year", "grp.x", "id.x", "anyOf(tags.x)", "anyOf(nums.value)", "count(s.len)",
 	"anyOf(tags)", "allOf(tags)", "anyOf(friends.name)", "allOf(friends.rank)", "anyOf(owner.tags)", "count(tags)", "count(friends)", "anyOf(s)", "count(ism)", "anyOf(meta.k)", "anyOf(zz)",
 	"count(from friends where rank > 1)", "count(from friends where name = \"a\" skip 1 limit 1)", "count(from tags where true)", "count(from owner where true)", "count(from friends where zz = 1)"}
 
@@ -337,6 +339,24 @@ func runC10(c *core.Ctx, idx int) {
 		return
 	}
 	sentences := c10Sentences()
+	// a quarter of the cases run with the process-wide query-debug switch on: verdicts must not depend on it
+	if idx%4 == 1 {
+		ast.EnableQueryDebug.Store(true)
+		defer ast.EnableQueryDebug.Store(false)
+		c.Count("cases_with_query_debug_on", 1)
+	}
+	// the parser entry point with its debug option: text that is not a sentence must still come back with errors
+	debugRejects := func(text, origin string) {
+		defer func() {
+			if rec := recover(); rec != nil {
+				c.Violationf("C10 panic in zitiql.ParseWithDebug", map[string]any{"input": text, "origin": origin}, "%v", rec)
+			}
+		}()
+		if errs := zitiql.ParseWithDebug(text, ast.NewListener(), true); len(errs) == 0 {
+			c.Violationf("C10 zitiql.ParseWithDebug(debug=true) reports no error for text that is not a sentence ("+origin+")", map[string]any{"input": text}, "%q", text)
+		}
+		c.Count("debug_parses", 1)
+	}
 	junkCheck := func(s string) {
 		// (accepted S, S with one unrecognised character inserted at a token boundary) must not both parse
 		bs := boundaries(s)
@@ -347,6 +367,9 @@ func runC10(c *core.Ctx, idx int) {
 		j := core.Pick(r, c10Junk)
 		mutated := s[:pos] + j + s[pos:]
 		c.Count("junk_inserted", 1)
+		if r.P(0.25) {
+			debugRejects(mutated, "junk character inserted")
+		}
 		if e.try(mutated, "junk character inserted") {
 			c.Violationf("C10 text with a character no lexer rule matches is accepted", map[string]any{"input": mutated, "sentence": s, "junk": j},
 				"%q is accepted although %q (U+%04X) belongs to no token; the sentence without it is %q", mutated, j, []rune(j)[0], s)
@@ -381,6 +404,9 @@ func runC10(c *core.Ctx, idx int) {
 		cut := cuts[r.Intn(len(cuts))]
 		t := strings.TrimRight(s[:cut], " ")
 		c.Count("truncated", 1)
+		if r.P(0.25) {
+			debugRejects(t, "truncated inside an open group")
+		}
 		if e.try(t, "truncated inside an open group") {
 			c.Violationf("C10 text truncated inside an open parenthesis or bracket is accepted", map[string]any{"input": t, "sentence": s}, "%q is accepted (truncation of %q)", t, s)
 		} else {
@@ -556,7 +582,7 @@ func c10Bolt(c *core.Ctx, part int) {
 	}
 	for i := part; i < len(sentences); i += c10BoltCases {
 		for si, suf := range []string{"", " sort by s desc, ism", " sort by tags", " sort by owner.name", " skip 1 limit 2", " sort by flt skip -1 limit none",
-			" sort by s skip 100", " sort by ism desc skip 13 limit 1", " sort by flt skip 1", " skip 100", " sort by id desc skip 50 limit 2", " sort by t limit 0"} {
+			" sort by s.len", " sort by tags.x desc", " sort by s skip 100", " sort by ism desc skip 13 limit 1", " sort by flt skip 1", " skip 100", " sort by id desc skip 50 limit 2", " sort by t limit 0"} {
 			if si > 0 && (i+si)%3 != 0 {
 				continue
 			}
